@@ -631,15 +631,23 @@ def wrap_rule(ctx, r):
     eb = ExprBuilder(f)
     wl = f.calls_to(CHIR + "::into_whole_line")
     wd = f.calls_to(CHIR + "::into_word")
-    if len(wl) == 1 and W.guard_bool_field(f, eb, [wl[0].bb], RCFG, "whole_line", True):
+    # value table over (config.whole_line, config.word): which wrapper runs
+    from ..flow import table as _table
+    wl_bad, wd_bad = [], []
+    for row, sx in _table(facts, f, fields={(RCFG, "whole_line"): [I(0), I(1)], (RCFG, "word"): [I(0), I(1)]}):
+        x_, w_ = row[("field", (RCFG, "whole_line"))][1], row[("field", (RCFG, "word"))][1]
+        if any(c.bb in sx.exec_blocks for c in wl) != bool(x_):
+            wl_bad.append("whole_line=%d word=%d" % (x_, w_))
+        if any(c.bb in sx.exec_blocks for c in wd) != bool(w_ and not x_):
+            wd_bad.append("whole_line=%d word=%d" % (x_, w_))
+    if wl and not wl_bad:
         r.ok("build_many|whole_line", "into_whole_line under config.whole_line", fn=f)
     else:
-        r.bad("build_many|whole_line", "into_whole_line is not applied exactly under config.whole_line", fn=f, construct="whole_line")
-    if len(wd) == 1 and W.guard_bool_field(f, eb, [wd[0].bb], RCFG, "word", True) and \
-            W.guard_bool_field(f, eb, [wd[0].bb], RCFG, "whole_line", False):
+        r.bad("build_many|whole_line", "into_whole_line is not applied exactly under config.whole_line (%s)" % ", ".join(wl_bad), fn=f, construct="whole_line")
+    if wd and not wd_bad:
         r.ok("build_many|word", "into_word under word ∧ ¬whole_line", fn=f)
     else:
-        r.bad("build_many|word", "into_word is not applied exactly under config.word (and not whole_line)", fn=f, construct="word")
+        r.bad("build_many|word", "into_word is not applied exactly under config.word (and not whole_line) (%s)" % ", ".join(wd_bad), fn=f, construct="word")
     LOOK = "regex_syntax::hir::Look::"
     # into_word
     # the wrappers as value tables on the MIR: Hir::look(x) answers look(x), self.hir reads as "hir"; the outcome is the
@@ -813,6 +821,10 @@ def striphir_rule(ctx, r):
     for c in b.calls_to(CHIR + "::line_terminator"):
         if (RCFG, "line_terminator") in fields_of_place(c.dest):
             stored = True
+    # ... or the configuration is rebuilt with it (`Config { line_terminator: chir.line_terminator(), ..self.config.clone() }`)
+    for bb, j, st in b.stmts():
+        if st["k"] == "assign" and st["rv"]["k"] == "agg" and st["rv"].get("adt") == RCFG and "line_terminator" in st["rv"].get("fields", []):
+            stored = is_call(strip(ebb.operand(st["rv"]["ops"][st["rv"]["fields"].index("line_terminator")])), CHIR + "::line_terminator")
     if stored:
         r.ok("effective-terminator", "RegexMatcher.config.line_terminator = chir.line_terminator()", fn=b)
     else:
